@@ -5,6 +5,7 @@ Events = developer edits and tool runs; every edit run additionally with one kil
 operation of *that* run's fault-free trace (engine E1 supplies these successors)."""
 import collections
 import errno
+import itertools
 import re
 import signal
 
@@ -387,7 +388,60 @@ def recovery_sweep(v, ex, s, tier):
                "(leftovers kept); its lock must cover its IDs whenever the clean-world run's lock does", n, exhaustive=True)
 
 
+def run_config_dir_on_other_fs(v):
+    """Environment: the configuration directory (where the lock lives) is on another file system than the sources and TMPDIR - every rename
+    across that boundary fails with EXDEV. Sources and lock are each replaced within their own file system, so nothing may change: over
+    run, developer edit (delete the highest-numbered statement, add one), run, no ID is given to a second statement."""
+    import re as _re
+    n = 0
+    for structured, lock0, edit in itertools.product((False, True), (None, 1, 50), ("del_max+add", "add")):
+        def st(k, ref=None):
+            if structured:
+                return 'fn f%d() { info!(%sk = %d; "m%d"); }\n' % (k, "ref = %d, " % ref if ref else "", k, k)
+            return 'fn f%d() { info!("%sm%d"); }\n' % (k, "[ref: %d] " % ref if ref else "", k)
+        files = {"a.rs": st(0) + st(1), "b.rs": st(2)}
+        owner = {}                       # ID -> statement (by its message text m<k>)
+        lock = lock0
+        hist = []
+        violated = None
+        for step in range(3):
+            sc = fsx.Scenario("xdev-config-dir", dict(files), lock=lock, structured=structured)
+            x = fsx.execute((sc, [], {"config_dir_on_other_fs": True}))
+            hist.append("edit(exit=%s)" % x.terminated())
+            n += 1
+            v.count()
+            for fname, content in x.src.items():
+                for m in _re.finditer(rb'(?:\[ref: (\d+)\] |ref = (\d+)(?:u32)?[,;] [^"]*")m(\d+)', content):
+                    i = int(m.group(1) or m.group(2))
+                    k = int(m.group(3))
+                    if owner.setdefault(i, k) != k and violated is None:
+                        violated = "ID %d written for m%d was written for m%d before" % (i, k, owner[i])
+            files = {f: c.decode() for f, c in x.src.items()}
+            lock = x.lock if isinstance(x.lock, int) else None
+            if owner and lock is not None and lock != 0 and lock <= max(owner) and violated is None:
+                violated = "lock %d does not cover ID %d" % (lock, max(owner))
+            # developer edit
+            if step < 2:
+                ids = sorted(owner)
+                if edit.startswith("del_max") and ids:
+                    top = owner[max(i for i in ids if any(("m%d" % owner[i]).encode() in c.encode() for c in files.values()))] if ids else None
+                    if top is not None:
+                        for f in files:
+                            files[f] = "".join(l + "\n" for l in files[f].split("\n") if l and ('"m%d"' % top not in l and ' m%d"' % top not in l and 'm%d")' % top not in l))
+                        hist.append("delete m%d" % top)
+                newk = 10 + step
+                files["a.rs"] = files.get("a.rs", "") + st(newk)
+                hist.append("add m%d" % newk)
+        v.distinct(("xdev-config-dir", structured, lock0, edit))
+        if violated:
+            v.violation("id-reassigned:config-dir-on-other-fs", {"structured": structured, "lock_at_start": lock0, "developer_edit": edit, "history": hist, "what": violated,
+                                                                 "ids": {str(i): "m%d" % k for i, k in sorted(owner.items())}})
+    v.subspace("environment 'configuration directory on another file system than sources and TMPDIR' (EXDEV across the boundary): run, {delete the "
+               "highest-numbered statement +} add one, run, again, run x lock {absent, 1, 50} x style", n, exhaustive=True)
+
+
 def run(tier, v):
+    run_config_dir_on_other_fs(v)
     ex = fsx.Explorer()
     if tier == "thorough":
         s = Search(v, ex, max_files=3, max_stmts=5, depth=6, max_faulty=2, wall_cap=int(__import__("os").environ.get("VERIF_C02_CAP_S", "3600")))
